@@ -4,5 +4,11 @@ From Coq Require Import Extraction ExtrOcamlBasic.
 From RJ Require Import Base.Outcome Model.Sort Model.SetOps.
 Extraction Language OCaml.
 
+(* run_* are the entry points on the scripted key function; the generic functions are
+   extracted too so that the driver can pass a key function that records its calls
+   (the monadic code sequences every call explicitly, so the record is the model's
+   order of keyF applications) *)
 Extraction "../ocaml/gen/sort_model.ml" wire_anchor
-  run_sort run_uniq run_set run_uniq_sort run_inter run_union run_diff run_member run_min run_max.
+  run_sort run_uniq run_set run_uniq_sort run_inter run_union run_diff run_member run_min run_max
+  std_sort std_uniq std_set std_set_inter std_set_union std_set_diff std_set_member
+  std_min_array_idx std_max_array_idx wcmp weqv.
